@@ -143,7 +143,7 @@ fn thops_set(prop: &'static str, quick: bool) -> Vec<Harness> {
     // Three threads plus kernel actors: ~100 points per schedule.
     let pb = 2;
     let mut v = Vec::new();
-    let mk = |tasks: Vec<(Kind, Vec<Step>, Option<usize>)>, canary: bool, cq: Option<u32>, c0: u32| ThOpsCfg { prop, sq: 4, cq, c0_cq: c0, tasks, canary, ring_polls: 4, pool: (4, 8) };
+    let mk = |tasks: Vec<(Kind, Vec<Step>, Option<usize>)>, canary: bool, cq: Option<u32>, c0: u32| ThOpsCfg { prop, sq: 4, cq, c0_cq: c0, tasks, canary, ring_polls: 4, pool: (4, 8), ring_drops: false };
     match prop {
         "C02" => {
             v.push(mk(vec![(Kind::MultishotRead, vec![Step::More, Step::More, Step::FinalZero], None), (Kind::ReadVec, vec![Step::Ok], None)], false, None, 0));
@@ -154,6 +154,17 @@ fn thops_set(prop: &'static str, quick: bool) -> Vec<Harness> {
             v.push(mk(vec![(Kind::ReadVec, vec![Step::Ok], None), (Kind::WriteVec, vec![Step::Ok], None)], true, Some(4), 0xffff_fffe));
         }
         "C01" | "C06" => {
+            if prop == "C01" {
+                // The Ring is dropped on its own thread while the tasks still poll and drop their operations.
+                let mut c = mk(vec![(Kind::ReadVec, vec![Step::Ok], None), (Kind::SendZc, vec![Step::Ok, Step::Notif], Some(1))], false, None, 0);
+                c.ring_polls = 1;
+                c.ring_drops = true;
+                v.push(c);
+                let mut c = mk(vec![(Kind::MultishotRead, vec![Step::More, Step::FinalZero], Some(2))], false, None, 0);
+                c.ring_polls = 1;
+                c.ring_drops = true;
+                v.push(c);
+            }
             v.push(mk(vec![(Kind::ReadVec, vec![Step::Ok], Some(1))], false, None, 0));
             v.push(mk(vec![(Kind::SendZc, vec![Step::Ok, Step::Notif], Some(1))], false, None, 0));
             v.push(mk(vec![(Kind::MultishotRead, vec![Step::More, Step::More, Step::FinalZero], Some(2)), (Kind::ReadVec, vec![Step::Eintr, Step::Ok], None)], false, None, 0));
@@ -527,13 +538,30 @@ fn c12(quick: bool) -> Vec<Harness> {
     let sc = std::rc::Rc::new(sc);
     let (c1, c2) = (sc.clone(), sc.clone());
     let b = Bounds { depth: 10, dev: 0, d_all: 10, merge: false, shard: (0, 1), cap_s: 0, shard_depth: 1 };
-    vec![Harness {
+    let mut th = Vec::new();
+    {
+        // The Ring dropped on its own thread while other threads poll and drop operations on it.
+        use crate::thworld::{Step, ThOpsCfg, thops};
+        for tasks in [
+            vec![(Kind::ReadVec, vec![Step::Ok], None), (Kind::SendZc, vec![Step::Ok, Step::Notif], Some(1))],
+            vec![(Kind::MultishotRead, vec![Step::More, Step::FinalZero], Some(2)), (Kind::WriteVec, vec![Step::Ok], None)],
+        ] {
+            let c = ThOpsCfg { prop: "C12", sq: 4, cq: None, c0_cq: 0, tasks, canary: false, ring_polls: 1, pool: (4, 8), ring_drops: true };
+            let mut h = thops(c, if quick { 1 } else { 2 });
+            h.free_bound = if quick { 1 } else { 3 };
+            h.cap_s = if quick { 0 } else { 600 };
+            th.push(th_harness("C12", h));
+        }
+    }
+    let mut out = th;
+    out.push(Harness {
         name: "drop-permutations".to_string(),
         describe: json!({"engine": "seqx", "world": "C12World", "scenarios": n, "drop_orders": "every permutation of the scenario's objects that safe Rust admits", "sample_scenario": format!("{:?}", sc[sc.len() / 3])}),
         bounds: b,
         run: Box::new(move |b| seqx::explore(&|| C12World::new(c1.clone()), "C12", b)),
         replay: Box::new(move |choices| seqx::exec(&|| C12World::new(c2.clone()), "C12", choices)),
-    }]
+    });
+    out
 }
 
 fn c18(quick: bool) -> Vec<Harness> {
